@@ -1,6 +1,17 @@
+let dump_chain (p : Model.pindex) =
+  let i = Driver.int_of_n in
+  Printf.printf "lvl %d %d %d %d\n" (i p.Model.px_level) (i p.Model.px_split) (List.length p.Model.px_chains) (i p.Model.px_nkeys);
+  List.iteri (fun b chain ->
+    Printf.printf "chain %d %s\n" b (String.concat " | " (List.map (fun bucket ->
+      String.concat "," (List.map (fun (sl : Model.slot) ->
+        Printf.sprintf "%d:%d:%d:%d:%d" (i sl.Model.sl_h) (i sl.Model.sl_seg) (i sl.Model.sl_ks) (i sl.Model.sl_vs) (i sl.Model.sl_off)) bucket)) chain)))
+    p.Model.px_chains
+
 let () =
   let which = if Array.length Sys.argv > 1 then Sys.argv.(1) else "flat" in
   let ic = if Array.length Sys.argv > 2 then open_in Sys.argv.(2) else stdin in
   match which with
-  | "flat" -> Driver.run Model.flat_ops (fun _ -> print_string "flat index\n") ic
+  | "flat" -> Driver.run Model.flat_ops (fun _ -> print_string "flat index\n")
+                (fun p s -> Some (Model.inv_b p s)) ic
+  | "chain" -> Driver.run Model.chain_ops dump_chain (fun _ _ -> None) ic
   | _ -> prerr_endline "unknown index"; exit 2
